@@ -1,7 +1,7 @@
 """C08 -- detection is online: bounded latency, lazy reading, prefix-consistent output (DESIGN 4.8)"""
 import ast
 
-from ..facts import Ctx
+from ..facts import Ctx, split_ites
 from ..tokrun import feed
 from ..symex import show, walk, term_name
 from .. import pat as P
@@ -20,7 +20,7 @@ def check(repo, rep):
             gen_name = r['structure']['generator']
     # ---------------------------------------------------------------- tokenize(): three thin wrappers over the same generator
     tk = cx.fn('core', 'StreamTokenizer.tokenize')
-    lv = cx.leaves('core', 'StreamTokenizer.tokenize')
+    lv = split_ites(cx.leaves('core', 'StreamTokenizer.tokenize'))
     W = lambda n: cx.where('core', n)
     isgen = lambda t: t[0] == 'call' and t[1][0] == 'attr' and t[1][1] == ('self',) and (gen_name is None or t[1][2] == gen_name) and len(t[2]) >= 1 and t[2][0] == ('p', 'data_source')
     modes = {'callback': 0, 'generator': 0, 'list': 0}
